@@ -339,3 +339,46 @@ func TestD16_declaredWidth(t *testing.T) {
 	}
 	_ = fmt.Sprint
 }
+
+type namedCB struct {
+	log  *[]string
+	name string
+}
+
+func (n namedCB) UpdateProperties(po tabular.PropertyOwner) error {
+	*n.log = append(*n.log, n.name)
+	return nil
+}
+
+// D17: callback lists are slices inside the Cell struct; cells are copied by value (Row.Add), so copies share
+// the list's backing array, and once that array has spare capacity a registration on one copy overwrites the
+// registration made on another.
+func TestD17_callbackListsSharedByCellCopies(t *testing.T) {
+	tb := tabular.New()
+	var log []string
+	c := tabular.NewCell("x")
+	for _, n := range []string{"a1", "a2", "a3"} { // three appends leave cap 4, len 3
+		if err := tb.RegisterPropertyCallback(&c, tabular.CB_AT_RENDER, tabular.CB_ON_ITSELF, namedCB{&log, n}); err != nil {
+			t.Fatal(err)
+		}
+	}
+	r := tb.AppendNewRow()
+	r.Add(c).Add(c)
+	c1, _ := tb.CellAt(tabular.CellLocation{Row: 1, Column: 1})
+	c2, _ := tb.CellAt(tabular.CellLocation{Row: 1, Column: 2})
+	tb.RegisterPropertyCallback(c1, tabular.CB_AT_RENDER, tabular.CB_ON_ITSELF, namedCB{&log, "B-on-first"})
+	tb.RegisterPropertyCallback(c2, tabular.CB_AT_RENDER, tabular.CB_ON_ITSELF, namedCB{&log, "C-on-second"})
+	tb.InvokeRenderCallbacks()
+	nb, nc := 0, 0
+	for _, l := range log {
+		if l == "B-on-first" {
+			nb++
+		}
+		if l == "C-on-second" {
+			nc++
+		}
+	}
+	if nb != 1 || nc != 1 {
+		t.Errorf("B fired %d times, C fired %d times (each registered once on one cell): %v", nb, nc, log)
+	}
+}
